@@ -126,6 +126,42 @@ pub trait CmdSet: 'static {
     /// command names taking part in completion (visible groups only), in declaration order
     fn names() -> Vec<String>;
     fn parse<'a>(raw: RawCommand<'a>) -> Result<String, ParseError<'a>>;
+    /// Type the line and press Enter using the derive-generated `processor(closure)` wrapper:
+    /// (what the closure received, sink bytes from Enter on). None = the set has no such wrapper.
+    fn via_processor(_line: &str) -> Option<(Option<String>, Vec<u8>)> {
+        None
+    }
+}
+
+/// Implements `CmdSet::via_processor` for a derived root type
+#[macro_export]
+macro_rules! impl_via_processor {
+    ($root:ty) => {
+        fn via_processor(line: &str) -> Option<(Option<String>, Vec<u8>)> {
+            let (sink, st) = $crate::sink::RecSink::new(false, None);
+            let mut cli = embedded_cli::cli::CliBuilder::default()
+                .writer(sink)
+                .command_buffer($crate::session::OwnedBuf(vec![0u8; line.len() + 8]))
+                .history_buffer($crate::session::OwnedBuf(vec![]))
+                .build()
+                .ok()?;
+            let mut got: Option<String> = None;
+            let from;
+            {
+                let mut p = <$root>::processor(|_cli, cmd| {
+                    got = Some(format!("{:?}", cmd));
+                    Ok(())
+                });
+                for b in line.bytes() {
+                    cli.process_byte::<$root, _>(b, &mut p).ok()?;
+                }
+                from = st.borrow().bytes.len();
+                cli.process_byte::<$root, _>(b'\r', &mut p).ok()?;
+            }
+            let out = st.borrow().bytes[from..].to_vec();
+            Some((got, out))
+        }
+    };
 }
 
 pub struct RawSet;
@@ -224,6 +260,7 @@ impl CmdSet for EnumSet {
     fn parse<'a>(raw: RawCommand<'a>) -> Result<String, ParseError<'a>> {
         <Base<'a> as FromRaw<'a>>::parse(raw).map(|c| format!("{:?}", c))
     }
+    crate::impl_via_processor!(Base<'_>);
 }
 
 pub struct GroupSet;
@@ -239,6 +276,7 @@ impl CmdSet for GroupSet {
     fn parse<'a>(raw: RawCommand<'a>) -> Result<String, ParseError<'a>> {
         <Grouped<'a> as FromRaw<'a>>::parse(raw).map(|c| format!("{:?}", c))
     }
+    crate::impl_via_processor!(Grouped<'_>);
 }
 
 thread_local! {
